@@ -415,6 +415,10 @@ def split_regs(rng, n):
 
 def rand_gate(rng, nq, mode):
     r = rng.random()
+    if mode == "toffoli" and nq >= 3 and r < 0.6:
+        if r < 0.3:
+            return ["g", "ccx", [int(q) for q in rng.permutation(nq)[:3]]]
+        return ["g", ["h", "sx", "s"][int(rng.integers(0, 3))], [int(rng.integers(0, nq))]]
     if nq >= 3 and mode != "clifford" and r < 0.08:
         return ["g", "ccx", [int(q) for q in rng.permutation(nq)[:3]]]
     if nq >= 2 and r < 0.4:
@@ -443,6 +447,7 @@ def rand_prog(rng, nq, ncl, length, mode, max_nonunitary):
     """mode: 'uniform' | 'onebit' (all measurements into one clbit) | 'basis' (computational-basis gates only:
     every branch deterministic) | 'entangle' (GHZ-like prefix) | 'heavy' (mostly measure/reset) |
     'plus' (h/sx layer first: every first measurement of a qubit branches) |
+    'toffoli' (h layer, then many ccx / h / sx / s: conditional probabilities other than 0, 1/2, 1) |
     'deep' (<= 3 qubits, a superposing gate before most measurements: many branches of small probability)"""
     prog = []
     nonu = 0
@@ -452,13 +457,13 @@ def rand_prog(rng, nq, ncl, length, mode, max_nonunitary):
         for q in range(1, nq):
             if len(prog) < length:
                 prog.append(["g", "cx", [int(rng.integers(0, q)), q]])
-    if mode == "plus":
+    if mode in ("plus", "toffoli"):
         for q in range(nq):
             if len(prog) < length:
                 prog.append(["g", ["h", "sx", "sxdg"][int(rng.integers(0, 3))], [q]])
     while len(prog) < length:
         r = rng.random()
-        w_meas = 0.45 if mode in ("heavy", "deep") else 0.27
+        w_meas = 0.7 if mode == "deep" else 0.45 if mode == "heavy" else 0.27
         w_reset = 0.2 if mode == "heavy" else 0.1
         if nonu >= max_nonunitary:
             w_meas = w_reset = 0.0
@@ -502,6 +507,14 @@ def rand_tol_prog(rng, nq, ncl, length, params=None):
         elif r < 0.35 and nonu < 6:
             prog.append(["reset", int(rng.integers(0, nq))])
             nonu += 1
+        elif r < 0.45 and nonu < 5 and params is None:
+            # measure; tiny rotation; measure again: a child of conditional probability ~ e^2/4 (1e-20 .. 2e-6)
+            q = int(rng.integers(0, nq))
+            e = float(rng.choice([1e-10, 1e-8, 1.9e-8, 2.1e-8, 1e-7, 1e-6, 1e-5, 1e-4, 1e-3, 3e-3]))
+            prog.append(["measure", q, int(rng.integers(0, ncl))])
+            prog.append(["ry", e * float(rng.choice([-1, 1])), q])
+            prog.append(["measure", q, int(rng.integers(0, ncl))])
+            nonu += 2
         elif params is not None and r < 0.6:
             name = f"p{len(params)}_{['b', 'a', 'c'][len(params) % 3]}"   # names not in creation order
             params[name] = float(rng.uniform(-3.1, 3.1))
@@ -570,7 +583,7 @@ def generate(rng, tier, outdir):
     n_tol = 160 if quick else 1500
     n_multi = 60 if quick else 600
     max_nonu = 8 if quick else 10
-    modes = ["uniform", "uniform", "onebit", "basis", "entangle", "heavy", "heavy", "plus", "plus", "plus"]
+    modes = ["uniform", "uniform", "onebit", "basis", "entangle", "heavy", "heavy", "plus", "plus", "plus", "toffoli"]
     sampler = ExactSampler()        # ONE instance reused by every call of this run
 
     def clean(v):
@@ -603,6 +616,8 @@ def generate(rng, tier, outdir):
             ncl = 0 if rng.random() < 0.07 else int(rng.integers(1, 6))
             length = int(rng.integers(0, 21))
             mode = modes[int(rng.integers(0, len(modes)))]
+            if mode == "toffoli":
+                nq, ncl, length = int(rng.integers(3, 6)), max(ncl, 2), int(rng.integers(10, 21))
             case = dict(nq=nq, ncl=ncl, qregs=split_regs(rng, nq), cregs=split_regs(rng, ncl),
                         prog=rand_prog(rng, nq, ncl, length, mode, max_nonu))
         else:
@@ -769,7 +784,7 @@ def generate(rng, tier, outdir):
         rule="sim: random circuits on 1..5 qubits, 0..5 clbits (1-3 registers / bare bits each), 0..20 instructions over "
         "{x,y,z,h,s,sdg,sx,sxdg,cx,cz,swap,ccx, composite gates (to_gate) of these, measure,reset,barrier} in modes uniform / all "
         "measurements into one bit / computational-basis only (deterministic branches) / GHZ prefix (entangled measurements) / "
-        "measure-reset heavy / h-sx layer first / deep (<=3 qubits, up to 10-12 branching measurements), plus fixed seeds; both "
+        "measure-reset heavy / h-sx layer first / toffoli-rich / deep (<=3 qubits, up to 10-12 branching measurements), plus fixed seeds; both "
         "simulate_statevector_outcomes and ExactSampler (one reused instance) are recorded; the Coq checker evaluates the model "
         "instantiated with QSim (exact Q(sqrt2)(i) amplitudes), compares as finite maps (key sets exactly, no duplicate keys, "
         "probabilities within 1e-12), audits that every measured QSim probability is an exact rational, and requires the harness's "
